@@ -5,7 +5,8 @@
    parent in both maps) is the fix delivered with this check.  The two Examples at the end run the
    earlier behaviours on the histories that broke them. *)
 From Relay Require Import Base.Prelude Base.AList Model.ChanMap Proofs.ChanMap_proofs
-  Model.HubFaults Proofs.HubFaults_proofs.
+  Model.HubFaults Proofs.HubFaults_proofs Proofs.ChanMap_concurrent.
+From Relay Require Model.SerialEq.
 
 (* every sequence of chanmap operations whose Adds carry fresh child names and channels: no panic
    (every operation runs), no channel closed twice, the two maps mutually consistent, and no nil map
@@ -28,6 +29,37 @@ Theorem C08_no_empty_parent_entries :
               exists c, mlk c (pbc (fst (crun cm_init ops))) = Some p.
 Proof. exact no_empty_parent_entries. Qed.
 Print Assumptions C08_no_empty_parent_entries.
+
+(* ---- the deny-channel store under concurrent use ----
+   serveWs, Hub.drop and the deny loop call the store from different goroutines. It is one object behind one mutex and
+   each method is one critical section (C12's generated obligation on the lock IR regenerated from the source), so the
+   value-level serial-equivalence theorem applies with the store's own step function: any schedule of any threads
+   leaves the store in the state of the sequential sequence of the same operations in lock-acquisition order (each
+   thread's own order kept); and where no operation panics - which the first theorem of this file establishes for
+   sequences with fresh names - that state is crun's, so the statements over operation sequences hold of every
+   concurrent execution. *)
+Theorem C08_chanmap_concurrent_use_is_sequential :
+  forall progs (s0 : cm) sched (s : cm_cstate),
+    SerialEq.run cm_ueqb cm_upd sched (SerialEq.init progs (fun _ => s0)) = Some s -> SerialEq.finished s = true ->
+    SerialEq.st s tt = cfinal s0 (map (@SerialEq.c_op unit cop) (SerialEq.acqs s)) /\
+    (forall i p, nth_error progs i = Some p -> SerialEq.by_thread i (SerialEq.acqs s) = SerialEq.mkcalls i 0 p).
+Proof. exact concurrent_chanmap_is_sequential. Qed.
+Print Assumptions C08_chanmap_concurrent_use_is_sequential.
+
+Theorem C08_chanmap_sequence_state :
+  forall ops s, (forall x, In x (snd (crun s ops)) -> is_panic x = false) -> fst (crun s ops) = cfinal s ops.
+Proof. exact crun_cfinal. Qed.
+Print Assumptions C08_chanmap_sequence_state.
+
+(* non-vacuity: an admission (Add), a disconnect of another connection (DelChild) and a deny (DelCloseParent) from
+   three threads; the deny gets the lock between the two others: the store is what that order gives *)
+Example C08_chanmap_concurrent_witness :
+  let progs := [[(tt, Add 7 11 11)]; [(tt, DelCloseParent 7)]; [(tt, Add 7 12 12); (tt, DelChild 12)]]%N in
+  match SerialEq.run cm_ueqb cm_upd [2;2;2; 1;1;1; 0;0;0; 2;2;2] (SerialEq.init progs (fun _ => cm_init)) with
+  | Some s => (SerialEq.finished s, map (@SerialEq.c_tid unit cop) (SerialEq.acqs s), dump_children (SerialEq.st s tt))
+  | None => (false, [], [])
+  end = (true, [2; 1; 0; 2], [(7, Some [(11, 11)])]%N).
+Proof. vm_compute. reflexivity. Qed.
 
 (* non-vacuity: the last child of a booking goes (by child delete, twice) and the booking's key with it *)
 Example C08_witness_empty_parent :
